@@ -80,6 +80,25 @@ def main():
         if sel not in name:
             continue
         pe = peval.PEval(f, max_steps=2_000_000)
+        if name.startswith("p:"):
+            r = pe.call("p_" + name[2:], [])
+            if r.kind == "diverge":
+                got = "PANIC"
+            elif r.kind == "ret":
+                try:
+                    got = render(pe, r.value)
+                except ValueError as e:
+                    got = "UNRENDERED %s" % e
+            else:
+                print("%-28s %-8s %s" % (name, r.kind.upper(), (r.why or "")[:110]))
+                und += 1
+                continue
+            if got == want[name]:
+                ok += 1
+            else:
+                bad += 1
+                print("%-28s MISMATCH  rustc: %s   model: %s %s" % (name, want[name], got, (r.why or "")[:80]))
+            continue
         r = pe.call("c_" + name, [])
         if r.kind != "ret":
             print("%-28s %-8s %s" % (name, r.kind.upper(), (r.why or "")[:110]))
